@@ -21,7 +21,7 @@ for d in sorted(glob.glob('seeded/C*-*')):
         for p in props:
             ev = tempfile.mkdtemp()
             env = dict(os.environ, BANDCHECK_EVIDENCE_DIR=ev)
-            out = subprocess.run(['bin/bandcheck', '-property', p, '-tier', 'quick'], capture_output=True, text=True, env=env).stdout
+            out = subprocess.run(['bin/bandcheck', '-property', p, '-tier', 'quick'], capture_output=True, text=True, errors='replace', env=env).stdout
             keys = [l.split('key=', 1)[1].strip() for l in out.splitlines() if l.strip().startswith('rule=') and 'key=' in l]
             if keys:
                 fired[p] = keys
